@@ -693,6 +693,12 @@ func MarshalRecord(r record.Record, withDSDIdentifier bool) ([]byte, error) {
 	// Remove JSON identifier for manual editing.
 	jsonData = bytes.TrimPrefix(jsonData, varint.Pack8(dsd.JSON))
 
+	// Metadata can only be added to a JSON object (deleted records have no data).
+	// Anything else would be silently replaced or corrupted by setting "_meta".
+	if !r.Meta().IsDeleted() && !(gjson.ValidBytes(jsonData) && gjson.ParseBytes(jsonData).IsObject()) {
+		return nil, errors.New("could not add metadata: record data is not a JSON object")
+	}
+
 	// Add metadata.
 	jsonData, err = sjson.SetBytes(jsonData, "_meta", r.Meta())
 	if err != nil {
